@@ -91,11 +91,16 @@ func parseContractComments(cs *ContractSet, fset *token.FileSet, pkgPath string,
 	}
 	for _, cg := range f.Comments {
 		for _, c := range cg.List {
-			if !strings.HasPrefix(c.Text, "//@") {
+			// gofmt rewrites "//@" in doc comments to "// @": accept both spellings
+			raw := c.Text
+			if strings.HasPrefix(raw, "// @") {
+				raw = "//@" + raw[4:]
+			}
+			if !strings.HasPrefix(raw, "//@") {
 				continue
 			}
 			line := fset.Position(c.Pos()).Line
-			txt := strings.TrimSpace(strings.TrimPrefix(c.Text, "//@"))
+			txt := strings.TrimSpace(strings.TrimPrefix(raw, "//@"))
 			if txt == "" {
 				continue
 			}
